@@ -122,8 +122,44 @@ def _several_reset_runs_cases():
                             "idle": [], "part": labels, "form": form, "N": n_, "seed": 51600 + k, "always_oracle": True})
 
 
+def _reset_then_second_operand_cases():
+    """a used wire is re-initialised by a reset and afterwards touched ONLY as the second (target / later) operand of multi-qubit instructions
+    inside its partition - cz(0, q), cx(ctrl, q), two such gates, a barrier listing q second in between - while the observables are the identity
+    on it (no measurement follows on the wire): the reset is neither a reset of an untouched wire, nor repeated, nor final, so it belongs to the
+    subexperiment.  Cut before / after the reset, the wire in the first / second partition, both call forms, infinite and finite budgets."""
+    def g(name, qs, *params):
+        return {"name": name, "qubits": list(qs), **({"params": list(params)} if params else {})}
+    r = lambda q: {"name": "reset", "qubits": [q]}   # noqa: E731
+    fam = [
+        # cz(0, q) behind the reset, cut cx(0,2) in front of it
+        (3, [g("h", [0]), g("h", [1]), g("rx", [2], 0.4), g("cx", [0, 2]), r(1), g("cz", [0, 1]), g("ry", [2], 0.3)], [0, 0, 1], ["XIZ"], "dict", None),
+        (3, [g("h", [0]), g("h", [1]), g("rx", [2], 0.4), g("cx", [0, 2]), r(1), g("cz", [0, 1]), g("ry", [2], 0.3)], [0, 0, 1], ["XIZ", "ZIX"], "single", 7),
+        # cx(ctrl, q) behind the reset, the wire entangled before; cut rzz(0,2) at the end
+        (3, [g("h", [0]), g("ry", [1], 0.8), g("cx", [0, 1]), r(1), g("cx", [0, 1]), g("ry", [0], 0.5), g("rzz", [0, 2], 0.9), g("rx", [2], 0.3)],
+         [0, 0, 1], ["ZIZ", "XIX"], "dict", None),
+        (3, [g("h", [0]), g("ry", [1], 0.8), g("cx", [0, 1]), r(1), g("cx", [0, 1]), g("ry", [0], 0.5), g("rzz", [0, 2], 0.9), g("rx", [2], 0.3)],
+         [0, 0, 1], ["ZIZ", "XIX"], "dict", 9),
+        # two second-operand gates behind the reset, four qubits, the cut in front of the reset
+        (4, [g("h", [0]), g("h", [1]), g("ry", [2], 0.6), g("cx", [0, 1]), g("cz", [1, 2]), r(1), g("cx", [0, 1]), g("cz", [0, 1]), g("cx", [2, 3]),
+             g("ry", [0], 0.7)], [0, 0, 1, 1], ["XIZZ", "ZIIX"], "dict", None),
+        # the wire in the second partition (q = 2), unseparated call form
+        (3, [g("h", [1]), g("ry", [2], 1.1), g("ry", [0], 0.4), g("cx", [1, 2]), r(2), g("cz", [1, 2]), g("cx", [0, 1]), g("rx", [1], 0.2)],
+         [0, 1, 1], ["ZXI", "XZI"], "single", None),
+        # a barrier listing q second between the reset and the gate
+        (3, [g("h", [0]), g("h", [1]), g("cx", [0, 2]), r(1), g("barrier", [0, 1]), g("cx", [0, 1]), g("ry", [0], 0.3), g("ry", [2], 0.3)],
+         [0, 0, 1], ["XIZ", "YII"], "dict", 12),
+        # the partition's observables are the identity (placeholder measurement on qubit 0), cut behind the reset: the QPD outcomes depend on it
+        (3, [g("h", [0]), g("h", [1]), r(1), g("cz", [0, 1]), g("ry", [0], 0.6), g("cx", [0, 2]), g("ry", [2], 0.3)], [0, 0, 1], ["IIZ", "IIX"],
+         "dict", None),
+    ]
+    for k, (nq, instrs, labels, obs, form, n_) in enumerate(fam):
+        yield ("generate", {"nq": nq, "qregs": [nq], "instrs": instrs, "labels": labels, "pool_idx": [0, 1], "obs": [{"l": l, "p": 0} for l in obs],
+                            "idle": [], "part": labels, "form": form, "N": n_, "seed": 51700 + k, "always_oracle": True})
+
+
 def cases(rng, tier):
     N = 100 if tier == "quick" else 800
+    yield from _reset_then_second_operand_cases()
     yield from _several_reset_runs_cases()
     yield from _key_order_cases(rng)
     for _ in range(3 if tier == "quick" else 20):
@@ -404,11 +440,17 @@ def _wire_sequences(nq, items):
     return per
 
 
-def _substitution_mismatch(sub, key_of, key, c):
+def _substitution_mismatch(sub, key_of, key, c, identity_group=False):
     """None when subexperiment `c` is, wire by wire, the subcircuit `sub` with every cut placeholder replaced by the operations of the map that
     the joint map `key` selects for it (mid-circuit measurements of the maps going to the `qpd_measurements` register in circuit order), followed
     only by basis rotations / observable measurements - where reset instructions of that substituted circuit may be missing (the documented
-    reset removals, C19) but nothing else may be missing, added, re-parametrised or moved along a wire.  Otherwise a description."""
+    reset removals, C19) but nothing else may be missing, added, re-parametrised or moved along a wire.  Otherwise a description.
+
+    A reset may be missing only where one of the documented removals applies to it (barriers do not count as operations here): the wire has not
+    been operated on before it (reset of a wire still in |0>), the previous operation on the wire is a reset (a repeated reset), or no operation
+    and no measurement follows on the wire (a final reset; `identity_group`: the group's only measurement is the ignored placeholder one, which
+    does not count).  A reset that re-initialises a used wire for a later operation - whichever operand of that operation the wire is - belongs
+    to the subcircuit like any other instruction."""
     ref, nmeas, n2 = [], 0, 0
     for inst in sub.data:
         op = inst.operation
@@ -441,11 +483,13 @@ def _substitution_mismatch(sub, key_of, key, c):
     for q in range(sub.num_qubits):
         r, g = rw[q], gw[q]
         i = j = 0
+        dropped = []
         while i < len(r):
             if j < len(g) and r[i] == g[j]:
                 i += 1
                 j += 1
             elif r[i][0] == "reset":
+                dropped.append(i)
                 i += 1      # a removed reset
             else:
                 return (f"wire {q}: operation {show(r[i])} (position {i} of the substituted subcircuit's wire {[show(x) for x in r]}) is missing "
@@ -454,6 +498,17 @@ def _substitution_mismatch(sub, key_of, key, c):
         if len(rest) > 2 or any(not (x[0] in ("h", "sx") or (x[0] == "measure" and x[3] and x[3][0][0] == "observable_measurements")) for x in rest):
             return (f"wire {q}: after the substituted subcircuit's operations {[show(x) for x in r]} the subexperiment carries {[show(x) for x in rest]}, "
                     f"which is not a basis rotation and observable measurement")
+        for i in dropped:
+            before = [x for x in r[:i] if x[0] != "barrier"]
+            after = [x for x in r[i + 1:] if x[0] != "barrier"]
+            fresh = all(x[0] == "reset" for x in before)
+            repeated = bool(before) and before[-1][0] == "reset"
+            final = all(x[0] == "reset" for x in after) and (not rest or identity_group)
+            if not (fresh or repeated or final):
+                nxt = next(x for x in after + rest if x[0] != "reset")
+                return (f"wire {q}: the reset at position {i} of the substituted subcircuit's wire {[show(x) for x in r]} is missing from the "
+                        f"subexperiment (wire {[show(x) for x in g]}), although the wire was operated on before it ({show(before[-1])}) and is "
+                        f"used after it ({show(nxt)} on qubits {list(nxt[2])}): not a reset of an untouched wire, a repeated or a final reset")
     return None
 
 
@@ -500,11 +555,12 @@ def _oracle_substitution(circuits, observables, exps, coeffs, captured):
             key, bad = ws[j]["key"], None
             for lab, cs in it:
                 so = observables[lab] if separated else observables
-                G = len(ObservableCollection(so).groups)
+                groups = ObservableCollection(so).groups
+                G = len(groups)
                 if len(cs) != len(coeffs) * G:
                     return None   # reported by the counting clause
                 for g_i in range(G):
-                    why = _substitution_mismatch(subs[lab], key_of, key, cs[rank * G + g_i])
+                    why = _substitution_mismatch(subs[lab], key_of, key, cs[rank * G + g_i], identity_group=not len(groups[g_i].pauli_indices))
                     if why:
                         bad = (f"partition {lab!r}, sample {rank} (joint map {list(key)}), group {g_i}: the subexperiment is not the subcircuit with the "
                                f"chosen map's operations in place of the cut placeholders: {why}")
